@@ -2,7 +2,7 @@
 from contracts import timekeeper as K
 from pyvc import modelutil as mu
 
-UNITS = list(K.TK_UNITS)
+UNITS = list(K.TK_UNITS) + list(K.TK_ISO)
 LEMMAS = []
 NATIVE = [
     dict(name="clock clauses on a time lattice + every period spelling incl. ISO-8601 strings and malformed ones", harness="timekeeper_bounded", kind="bounded",
